@@ -162,4 +162,354 @@ Section Total.
     - rewrite HL. apply Forall_forall. intros x Hx. apply in_map_iff in Hx as [m [<- Hin]].
       rewrite Forall_forall in Hall. apply (Hall m Hin).
   Qed.
+
+  (** *** merge_assignment produces graphs that follow a supported chain *)
+  Fixpoint sums_ok (g : M.graph) : bool :=
+    match g with
+    | M.TerminalNode _ => true
+    | M.IterationNode _ _ nx => sums_ok nx
+    | M.SumNode _ ts => negb (match ts with [] => true | _ => false end) && forallb sums_ok ts
+    end.
+
+  Definition J (n : nat) (tgt : list M.tlayer) : Prop :=
+    modes_ok tgt /\ Permutation (layers tgt) (seq n (len - n)) /\ target_supported_from n tgt = true.
+
+  Lemma J_nil : forall n, J n [] -> dense_tail n = true.
+  Proof.
+    intros n [_ [Hp _]]. apply Permutation_length in Hp. rewrite seq_length in Hp. cbn in Hp.
+    unfold dense_tail. rewrite skipn_all2 by lia. reflexivity.
+  Qed.
+
+  Lemma J_tail : forall n ti tl ts, J n ((ti, tl) :: ts) -> dense_tail n = false ->
+    M.ol_layer tl = n /\ J (S n) ts.
+  Proof.
+    intros n ti tl ts [Hm [Hp Hs]] Hd. inversion Hm as [|? ? Hm1 Hm']; subst. cbn [snd] in Hm1.
+    cbn [target_supported_from] in Hs.
+    destruct (Nat.eqb_spec (M.ol_layer tl) n) as [E|NE]; cbn [negb] in Hs.
+    - split; [exact E|]. split; [exact Hm'|]. split; [|exact Hs].
+      cbn [layers map snd] in Hp. rewrite E in Hp.
+      assert (HL : (len - n = S (len - S n))%nat).
+      { apply Permutation_length in Hp. rewrite seq_length in Hp. cbn in Hp. lia. }
+      rewrite HL in Hp. cbn [seq] in Hp. now apply Permutation_cons_inv in Hp.
+    - rewrite Hm1 in Hs. unfold dense_tail in Hd. congruence.
+  Qed.
+
+  Lemma merge_assignment_follows : forall e, sums_ok e = true ->
+    forall tgt n, J n tgt -> Forall (follows n tgt) (M.merge_assignment e tgt).
+  Proof.
+    induction e as [x | ei eo en IHe | name terms IHterms] using graph_ind2; intros Hs;
+      induction tgt as [|[ti tl] ts IHt]; intros n HJ;
+      try (rewrite GraphsAssign.ma_nil; constructor; [cbn [follows]; now apply J_nil | constructor]).
+    - (* terminal *)
+      destruct (dense_tail n) eqn:Hd; [apply Forall_forall; intros; now apply follows_dense|].
+      destruct (J_tail _ _ _ _ HJ Hd) as [_ HJ'].
+      rewrite GraphsAssign.ma_T. apply Forall_forall. intros g Hg. apply in_map_iff in Hg as [g' [<- Hg']].
+      right. exists g'. split; [reflexivity|]. specialize (IHt (S n) HJ'). rewrite Forall_forall in IHt. auto.
+    - (* iteration node *)
+      destruct (dense_tail n) eqn:Hd; [apply Forall_forall; intros; now apply follows_dense|].
+      destruct (J_tail _ _ _ _ HJ Hd) as [_ HJ'].
+      assert (Hp : M.pending_compressed ((ti, tl) :: ts) = true).
+      { destruct HJ as [Hm [Hperm _]]. eapply pending_of_not_dense; eauto. }
+      rewrite GraphsAssign.ma_I, Hp. cbn [negb andb]. rewrite andb_false_r, app_nil_r.
+      cbn [sums_ok] in Hs.
+      destruct (String.eqb ti ei).
+      + apply Forall_forall. intros g Hg. apply in_map_iff in Hg as [g' [<- Hg']].
+        right. exists g'. split; [reflexivity|].
+        specialize (IHe Hs ts (S n) HJ'). rewrite Forall_forall in IHe. auto.
+      + destruct (negb (M.mem ti (M.later_indexes en))); [|constructor].
+        apply Forall_forall. intros g Hg. apply in_map_iff in Hg as [g' [<- Hg']].
+        right. exists g'. split; [reflexivity|].
+        specialize (IHt (S n) HJ'). rewrite Forall_forall in IHt. auto.
+    - (* sum node *)
+      rewrite GraphsAssign.ma_S. apply Forall_forall. intros g Hg.
+      apply in_map_iff in Hg as [merged [<- Hm]].
+      apply GraphsAssign.product_Forall2 in Hm.
+      cbn [sums_ok] in Hs. apply andb_true_iff in Hs as [Hne Hs].
+      destruct (S.simplify_add_spec name merged) as [g [Eg <-]].
+      eapply simplify_follows; [exact Eg | |].
+      + destruct terms as [|t0 tr]; [discriminate|]. inversion Hm; subst. discriminate.
+      + rewrite Forall_forall in IHterms. rewrite forallb_forall in Hs.
+        clear -Hm IHterms Hs HJ.
+        assert (G : forall l, (forall t, In t l -> In t terms) ->
+                  forall mg, Forall2 (fun x ls => In x ls) mg (map (fun x => M.merge_assignment x ((ti, tl) :: ts)) l) ->
+                  Forall (follows n ((ti, tl) :: ts)) mg).
+        { induction l as [|t r IHl]; intros Hsub mg F2; inversion F2; subst; constructor.
+          - assert (Ht : In t terms) by (apply Hsub; now left).
+            pose proof (IHterms t Ht (Hs t Ht) ((ti, tl) :: ts) n HJ) as Q. rewrite Forall_forall in Q. auto.
+          - apply IHl; [intros; apply Hsub; now right | assumption]. }
+        apply (G terms (fun t H => H) merged Hm).
+  Qed.
 End Total.
+
+(** ** expression graphs: SumNodes have at least one term and no SumNode among their terms *)
+Definition is_sum (g : M.graph) : bool := match g with M.SumNode _ _ => true | _ => false end.
+
+Fixpoint flat (g : M.graph) : bool :=
+  match g with
+  | M.TerminalNode _ => true
+  | M.IterationNode _ _ nx => flat nx
+  | M.SumNode _ ts =>
+      negb (match ts with [] => true | _ => false end) && forallb (fun t => negb (is_sum t) && flat t) ts
+  end.
+
+Fixpoint sumfree (g : M.graph) : bool :=
+  match g with
+  | M.TerminalNode _ => true
+  | M.IterationNode _ _ nx => sumfree nx
+  | M.SumNode _ _ => false
+  end.
+
+Lemma flat_sums_ok : forall g, flat g = true -> sums_ok g = true.
+Proof.
+  induction g as [e | i o nx IH | nm ts IH] using graph_ind2; intros H; cbn [flat sums_ok] in *; auto.
+  apply andb_true_iff in H as [Hne H]. rewrite Hne. cbn [andb].
+  apply forallb_forall. intros t Ht. rewrite forallb_forall in H. rewrite Forall_forall in IH.
+  apply IH; [exact Ht|]. specialize (H t Ht). now apply andb_true_iff in H as [_ H].
+Qed.
+
+Lemma sumfree_flat : forall g, sumfree g = true -> flat g = true /\ is_sum g = false.
+Proof.
+  induction g as [e | i o nx IH | nm ts]; intros H; cbn in *; auto; [|discriminate].
+  split; [now apply IH | reflexivity].
+Qed.
+
+Lemma merge_with_sumfree : forall mk l r, Forall (fun g => sumfree g = true) (M.merge_with mk l r).
+Proof.
+  intros mk.
+  induction l as [le | li lo ln IHl | ln lts _] using graph_ind2;
+    induction r as [re | ri ro rn IHr | rn rts _] using graph_ind2;
+    try (cbn; repeat constructor; fail).
+  - rewrite m_merge_TI. apply Forall_forall. intros g Hg. apply in_map_iff in Hg as [g' [<- Hg']].
+    rewrite Forall_forall in IHr. cbn. auto.
+  - rewrite m_merge_IT. apply Forall_forall. intros g Hg. apply in_map_iff in Hg as [g' [<- Hg']].
+    specialize (IHl (M.TerminalNode re)). rewrite Forall_forall in IHl. cbn. auto.
+  - rewrite m_merge_II.
+    assert (W1 : forall x i o, Forall (fun g => sumfree g = true) x ->
+                 Forall (fun g => sumfree g = true) (map (M.IterationNode i o) x)).
+    { intros x i o Hx. apply Forall_forall. intros g Hg. apply in_map_iff in Hg as [g' [<- Hg']].
+      rewrite Forall_forall in Hx. cbn. auto. }
+    destruct (String.eqb li ri); [apply W1, IHl|].
+    apply Forall_app. split.
+    + destruct (negb _); [apply W1, IHl | constructor].
+    + destruct (negb _); [apply W1, IHr | constructor].
+Qed.
+
+Lemma chain_sumfree : forall ixs e, sumfree (M.chain_graph ixs (M.TerminalNode e)) = true.
+Proof. induction ixs; cbn; auto. Qed.
+
+Definition nsflat (t : M.graph) : Prop := is_sum t = false /\ flat t = true.
+
+Lemma split_T_nonempty : forall ts T G, T <> [] -> fst (M.split_terms ts T G) <> [].
+Proof.
+  induction ts as [|t r IH]; intros T G H; [exact H|]. destruct t; cbn [M.split_terms]; apply IH; auto.
+  destruct T; [congruence | discriminate].
+Qed.
+
+Lemma group_insert_nonempty : forall i v G, M.group_insert i v G <> [].
+Proof. intros i v [|[j vs] r]; cbn; [discriminate|]. destruct (String.eqb i j); discriminate. Qed.
+
+Lemma split_G_nonempty : forall ts T G, G <> [] -> snd (M.split_terms ts T G) <> [].
+Proof.
+  induction ts as [|t r IH]; intros T G H; [exact H|]. destruct t; cbn [M.split_terms]; apply IH; auto.
+  apply group_insert_nonempty.
+Qed.
+
+Lemma next_terms_nsflat : forall nx, flat nx = true ->
+  M.next_terms_of nx <> [] /\ Forall nsflat (M.next_terms_of nx).
+Proof.
+  intros [e | i o n | nm ts] H; cbn [M.next_terms_of].
+  - split; [discriminate | repeat constructor].
+  - split; [discriminate|]. constructor; [split; [reflexivity | exact H] | constructor].
+  - cbn [flat] in H. apply andb_true_iff in H as [Hne H]. split; [destruct ts; [discriminate | discriminate]|].
+    apply Forall_forall. intros t Ht. rewrite forallb_forall in H. specialize (H t Ht).
+    apply andb_true_iff in H as [A B]. split; [now apply negb_true_iff in A | exact B].
+Qed.
+
+Lemma Forall2_nil_r : forall A B (R : A -> B -> Prop) l, Forall2 R l [] -> l = [].
+Proof. intros A B R l H. inversion H. reflexivity. Qed.
+
+Lemma tnodes_nil : forall T, S.tnodes_of T = [] -> T = [].
+Proof. intros [|e es] H; [reflexivity | discriminate]. Qed.
+
+Lemma simplify_flat : forall fuel name ts g,
+  M.simplify_fuel fuel name ts = Some g -> ts <> [] -> Forall nsflat ts -> flat g = true.
+Proof.
+  induction fuel as [|f IH]; intros name ts g H Hne HF; [discriminate|].
+  rewrite S.simplify_fuel_S in H.
+  destruct (M.sequence (map (S.inode_of f name) (snd (M.split_terms ts [] [])))) as [inodes|] eqn:Eseq; [|discriminate].
+  injection H as <-.
+  pose proof (S.split_terms_groups ts) as GO. rewrite Forall_forall in GO.
+  apply S.sequence_Forall2 in Eseq.
+  (* every inode is a flat IterationNode *)
+  assert (HI : Forall nsflat inodes).
+  { clear Hne. revert GO Eseq. generalize (snd (M.split_terms ts [] [])) as groups. intros groups GO Eseq.
+    revert GO. induction Eseq as [|[i vs] x gs xs Hx _ IHs]; intros GO; [constructor|]. constructor.
+    - destruct (GO (i, vs) (or_introl eq_refl)) as [Hvs Hin]. cbn [fst snd] in *.
+      unfold S.inode_of in Hx. destruct vs as [|[o n0] rest]; [congruence|].
+      destruct (M.simplify_fuel f name _) as [n'|] eqn:En; [|discriminate]. injection Hx as <-.
+      split; [reflexivity|]. cbn [flat].
+      assert (Hnext : forall o' nx, In (o', nx) ((o, n0) :: rest) -> flat nx = true).
+      { intros o' nx Hv. specialize (Hin o' nx Hv). rewrite Forall_forall in HF.
+        destruct (HF _ Hin) as [_ Hf]. exact Hf. }
+      apply (IH name _ n' En).
+      + cbn [flat_map snd]. destruct (next_terms_nsflat n0 (Hnext o n0 (or_introl eq_refl))) as [Hn _].
+        destruct (M.next_terms_of n0); [congruence | discriminate].
+      + apply Forall_forall. intros t Ht. apply in_flat_map in Ht as [[o' nx] [Hv Ht]]. cbn [snd] in Ht.
+        destruct (next_terms_nsflat nx (Hnext o' nx Hv)) as [_ Hall]. rewrite Forall_forall in Hall. auto.
+    - apply IHs. intros g Hg. apply GO. now right. }
+  (* the combined list is not empty *)
+  assert (HC : S.tnodes_of (fst (M.split_terms ts [] [])) ++ inodes <> []).
+  { destruct ts as [|t0 r]; [congruence|]. inversion HF as [|? ? [Hns _] _]; subst.
+    destruct t0 as [e | i o n | nm tt]; [| |discriminate].
+    - cbn [M.split_terms]. pose proof (split_T_nonempty r ([] ++ [e]) [] ltac:(discriminate)) as HT.
+      intros C. apply app_eq_nil in C as [C _]. apply HT. apply tnodes_nil. exact C.
+    - cbn [M.split_terms] in Eseq |- *.
+      pose proof (split_G_nonempty r [] (M.group_insert i (o, n) []) (group_insert_nonempty _ _ _)) as HG.
+      intros C. apply app_eq_nil in C as [_ C]. subst inodes. apply HG.
+      eapply Forall2_nil_r. exact Eseq. }
+  assert (HT : Forall nsflat (S.tnodes_of (fst (M.split_terms ts [] [])))).
+  { destruct (fst (M.split_terms ts [] [])); cbn; repeat constructor. }
+  pose proof (proj2 (Forall_app _ _ _) (conj HT HI)) as HA.
+  unfold S.finish. destruct (S.tnodes_of _ ++ inodes) as [|a [|b rr]] eqn:Ec; [congruence| |].
+  - inversion HA as [|? ? [_ Hfa] _]; subst. exact Hfa.
+  - cbn [flat]. cbn [negb andb]. apply forallb_forall. intros t Ht. rewrite Forall_forall in HA.
+    destruct (HA t Ht) as [A B]. now rewrite A, B.
+Qed.
+
+Lemma sum_terms_nsflat : forall l r, flat l = true -> flat r = true ->
+  M.sum_terms l r <> [] /\ Forall nsflat (M.sum_terms l r).
+Proof.
+  intros l r Hl Hr.
+  assert (K : forall g, flat g = true -> is_sum g = false -> nsflat g) by (intros; split; auto).
+  assert (KS : forall nm ts, flat (M.SumNode nm ts) = true -> ts <> [] /\ Forall nsflat ts).
+  { intros nm ts H. pose proof (next_terms_nsflat (M.SumNode nm ts) H) as Q. exact Q. }
+  destruct l as [le|li lo ln|ln lt]; destruct r as [re|ri ro rn|rn rt]; cbn [M.sum_terms];
+    try (split; [discriminate | repeat constructor; auto; fail]).
+  - destruct (KS _ _ Hr) as [A B]. split; [discriminate | constructor; auto].
+  - destruct (KS _ _ Hr) as [A B]. split; [discriminate | constructor; auto].
+  - destruct (KS _ _ Hl) as [A B]. split; [destruct lt; [congruence | discriminate] | apply Forall_app; split; auto].
+  - destruct (KS _ _ Hl) as [A B]. split; [destruct lt; [congruence | discriminate] | apply Forall_app; split; auto].
+  - destruct (KS _ _ Hl) as [A B]. destruct (KS _ _ Hr) as [C D].
+    split; [destruct lt; [congruence | discriminate] | apply Forall_app; split; auto].
+Qed.
+
+Lemma expr_graphs_flat : forall e fs c gs,
+  M.expr_graphs e fs c = M.ROk gs -> Forall (fun g => flat g = true) gs.
+Proof.
+  induction e as [v|h|t|l IHl r IHr|l IHl r IHr|i x IH]; intros fs c gs H; cbn [M.expr_graphs] in H.
+  - injection H as <-. repeat constructor.
+  - injection H as <-. repeat constructor.
+  - unfold M.tensor_graphs in H.
+    destruct (M.lookup (M.d_name t) fs); [|discriminate]. destruct (M.identify t fs); [|discriminate].
+    destruct (negb _); [discriminate|]. destruct (M.sequence _); [|discriminate]. injection H as <-.
+    apply Forall_forall. intros g Hg. apply in_map_iff in Hg as [ixs [<- _]].
+    apply sumfree_flat, chain_sumfree.
+  - destruct (negb (M.contains_contraction l || M.contains_contraction r)).
+    + apply Forall_forall. intros g Hg.
+      destruct (GraphsMerge.for_both_ok _ _ _ _ _ H g Hg) as [ls [rs [lg [rg [_ [_ [_ [_ Hb]]]]]]]].
+      pose proof (merge_with_sumfree M.IAdd lg rg) as Q. rewrite Forall_forall in Q.
+      apply sumfree_flat, Q, Hb.
+    + apply Forall_forall. intros g Hg.
+      destruct (GraphsMerge.for_both_ok _ _ _ _ _ H g Hg) as [ls [rs [lg [rg [EL [ER [Hl [Hr Hb]]]]]]]].
+      apply IHl in EL. apply IHr in ER. rewrite Forall_forall in EL, ER.
+      destruct Hb as [<-|[]].
+      destruct (sum_terms_nsflat lg rg (EL _ Hl) (ER _ Hr)) as [A B].
+      destruct (S.simplify_add_spec c (M.sum_terms lg rg)) as [g [Eg <-]].
+      eapply simplify_flat; eauto.
+  - apply Forall_forall. intros g Hg.
+    destruct (GraphsMerge.for_both_ok _ _ _ _ _ H g Hg) as [ls [rs [lg [rg [_ [_ [_ [_ Hb]]]]]]]].
+    pose proof (merge_with_sumfree M.IMultiply lg rg) as Q. rewrite Forall_forall in Q.
+    apply sumfree_flat, Q, Hb.
+  - eapply IH; eauto.
+Qed.
+
+(** ** every graph of the source's enumeration can be lowered *)
+Lemma target_chain_layers : forall tr o tgt,
+  M.target_chain tr o = Some tgt -> map (fun t => M.ol_layer (snd t)) tgt = o.
+Proof.
+  intros tr. unfold M.target_chain. induction o as [|x r IH]; intros tgt H; cbn [map M.sequence] in H.
+  - injection H as <-. reflexivity.
+  - destruct (nth_error (M.t_indexes tr) x); [|discriminate].
+    destruct (M.sequence _) as [tg'|] eqn:E; [|discriminate]. injection H as <-.
+    cbn [map snd M.ol_layer]. f_equal. now apply IH.
+Qed.
+
+Theorem src_graphs_not_bad : forall a fs gs modes,
+  to_iteration_graphs_src a fs = M.ROk gs -> O.output_modes a fs = Some modes ->
+  Forall (fun g => O.graph_bad_struct modes g = false) gs.
+Proof.
+  intros a fs gs modes H HM. unfold to_iteration_graphs_src, M.target_chains in H. unfold O.output_modes in HM.
+  destruct (M.lookup (M.d_name (M.a_target a)) fs) as [f|] eqn:EL; [|discriminate]. injection HM as <-.
+  destruct (M.identify (M.a_target a) fs) as [tr|] eqn:EI; [|discriminate].
+  assert (Htr : M.t_modes tr = M.f_modes f).
+  { unfold M.identify in EI. rewrite EL in EI. destruct (M.permute_indexes _ _); [|discriminate].
+    injection EI as <-. reflexivity. }
+  destruct (negb (M.nodupb (M.t_indexes tr))); [discriminate|].
+  destruct (M.sequence (map (M.target_chain tr) (M.legal_iteration_orders f))) as [cs|] eqn:ES; [|discriminate].
+  apply S.sequence_Forall2 in ES.
+  destruct (filter target_supported cs) as [|s0 ss] eqn:EF; [injection H as <-; constructor|].
+  rewrite <- EF in H.
+  destruct (M.expr_graphs (M.a_expr a) fs 1) as [es| |] eqn:EE; try discriminate. injection H as <-.
+  pose proof (expr_graphs_flat _ _ _ _ EE) as FL. rewrite Forall_forall in FL.
+  apply Forall_forall. intros g Hg.
+  apply in_flat_map in Hg as [tgt [Ht Hg]]. apply in_flat_map in Hg as [e [He Hg]].
+  apply filter_In in Ht as [Ht Hsup].
+  assert (exists o, In o (M.legal_iteration_orders f) /\ M.target_chain tr o = Some tgt) as [o [Ho E]].
+  { clear -ES Ht. induction ES as [|x y l l' Hxy _ IH]; [contradiction|].
+    destruct Ht as [<-|Ht]; [exists x; split; [now left | assumption]|].
+    destruct (IH Ht) as [o [A B]]. exists o. split; [now right | assumption]. }
+  destruct (GraphsAssign.target_chain_spec _ _ _ E) as [_ [_ TR]].
+  assert (HJ : J (M.f_modes f) 0 tgt).
+  { split; [|split].
+    - unfold modes_ok. rewrite Forall_forall in *. intros t Hin. now rewrite (TR t Hin).
+    - unfold layers. rewrite (target_chain_layers _ _ _ E), Nat.sub_0_r.
+      apply Permutation_sym. now apply GraphsOrders.legal_orders_perm.
+    - exact Hsup. }
+  pose proof (merge_assignment_follows (M.f_modes f) e (flat_sums_ok _ (FL e He)) tgt 0 HJ) as MF.
+  rewrite Forall_forall in MF. unfold O.graph_bad_struct.
+  destruct HJ as [Hm [_ Hs]]. eapply follows_not_bad; eauto.
+Qed.
+
+(** C08's statement at full strength, for the enumeration of today's source *)
+Theorem gen_generate_total : forall a fs ks,
+  O.wf_problem a fs = true -> W.typed_full (generate_src a fs ks).
+Proof.
+  intros a fs ks WF. destruct (gen_generate_outcomes_typed_partial a fs ks WF) as [H|[H|[H|H]]];
+    unfold W.typed_full; auto.
+  exfalso. apply gen_internal_iff_first_graph_bad in H as [H _].
+  unfold O.first_graph_bad_r in H.
+  destruct (O.output_modes a fs) as [modes|] eqn:EM; [|discriminate].
+  destruct (M.best_of (to_iteration_graphs_src a fs)) as [g| | |] eqn:EB; try discriminate.
+  destruct (W.best_of_in _ _ EB) as [gs [Er Hin]].
+  pose proof (src_graphs_not_bad a fs gs modes Er EM) as NB. rewrite Forall_forall in NB.
+  specialize (NB g Hin). unfold O.graph_bad, O.graph_bad_struct in *.
+  apply W.bad_from_le_struct in H. congruence.
+Qed.
+
+(** the same for callable kernels *)
+Definition tensor_method_src (a : M.dassign) (fs : M.formats) : O.outcome :=
+  O.tensor_method_r a fs (to_iteration_graphs_src a fs).
+
+Theorem gen_tensor_method_total : forall a fs,
+  O.wf_problem a fs = true ->
+  W.typed_full (tensor_method_src a fs) \/ tensor_method_src a fs = O.BroadcastTarget.
+Proof.
+  intros a fs WF. unfold tensor_method_src, O.tensor_method_r.
+  destruct (forallb _ _); [left; exact (gen_generate_total a fs [O.Evaluate] WF) | right; reflexivity].
+Qed.
+
+(** ** all exported statements under this module's name (tools/props/_tie_graphs.py prints their
+    assumptions as TV.proofs.GenGraphs_total.<name>) *)
+Definition gen_legal_iteration_orders_equiv := GenGraphs_equiv.gen_legal_iteration_orders_equiv.
+Definition gen_merge_add_equiv := GenGraphs_equiv.gen_merge_add_equiv.
+Definition gen_merge_multiply_equiv := GenGraphs_equiv.gen_merge_multiply_equiv.
+Definition gen_contains_contraction_equiv := GenGraphs_equiv.gen_contains_contraction_equiv.
+Definition gen_pending_compressed_equiv := GenGraphs_equiv.gen_pending_compressed_equiv.
+Definition gen_target_order_supported_equiv := GenGraphs_equiv.gen_target_order_supported_equiv.
+Definition gen_simplify_add_equiv := GenGraphs_equiv.gen_simplify_add_equiv.
+Definition gen_merge_assignment_equiv := GenGraphs_equiv.gen_merge_assignment_equiv.
+Definition gen_tensor_graphs_equiv := GenGraphs_equiv.gen_tensor_graphs_equiv.
+Definition gen_expr_graphs_equiv := GenGraphs_equiv.gen_expr_graphs_equiv.
+Definition gen_to_iteration_graphs_equiv := GenGraphs_equiv.to_iteration_graphs_equiv.
+Definition gen_internal_iff_first_graph_bad := GenGraphs_equiv.gen_internal_iff_first_graph_bad.
+Definition gen_generate_outcomes_typed_partial := GenGraphs_equiv.gen_generate_outcomes_typed_partial.
